@@ -586,6 +586,10 @@ impl ObjValue {
 	}
 
 	fn get_idx(&self, key: IStr, core: CoreIdx) -> Result<Option<Val>> {
+		// Assertions are checked before any field is observed: a value cached while a failing
+		// assertion was being checked should not be served afterwards, and a field read by
+		// an assertion should not be evaluated again by the access that triggered the check.
+		self.run_assertions()?;
 		let cache_key = (key.clone(), core);
 		{
 			let mut cache = self.0.value_cache.borrow_mut();
